@@ -12,6 +12,13 @@ pub broadcast proof fn axiom_rc_cloned<T>(a: Rc<T>, b: Rc<T>)
     requires #[trigger] cloned::<Rc<T>>(a, b)
     ensures a == b
 {}
+// T1: a Vec of pointer-sized elements holds fewer than isize::MAX / 8 of them (Rust's allocation limit), so small
+// constants can be added to its length without overflow. (Without this, a harmless `len + 1` in the code is an
+// overflow obligation that cannot be discharged - a false alarm for C04.)
+#[verifier::external_body]
+pub broadcast proof fn axiom_vec_rc_len(v: Vec<Rc<SemType>>)
+    ensures #[trigger] v@.len() <= usize::MAX / 16
+{}
 pub broadcast proof fn lemma_sts_ok_push(s: Seq<Rc<SemType>>, t: Rc<SemType>)
     requires sts_ok(s), st_ok(t)
     ensures #[trigger] sts_ok(s.push(t))
